@@ -192,6 +192,15 @@ func runC13(p *an.Prog, r *an.Run, tier string) {
 			}
 			nK++
 			d := p.Derives(0, keyArg)
+			// KeyCopy(dst) with a dst that is not nil writes into dst's storage: every pending write given such a key
+			// shares one buffer, so inside a loop all of them end up naming the last key copied into it
+			for _, kcc := range d.CallsTo(func(g *types.Func) bool { return an.IsMethod(g, badgerLib, "Item", "KeyCopy") }) {
+				if ka := kcc.Call.Args; len(ka) >= 2 {
+					if cst, isC := ka[1].(*ssa.Const); !isC || !cst.IsNil() {
+						bad = append(bad, callName(c)+" in "+an.FuncName(fn)+" at "+p.Pos(c.Pos())+" is given a key copied into a reused buffer (KeyCopy with a non-nil destination at "+p.Pos(kcc.Pos())+"): the transaction keeps the slice until commit, the next copy overwrites it")
+					}
+				}
+			}
 			if kc := d.CallTo(func(g *types.Func) bool { return an.IsMethod(g, badgerLib, "Item", "Key") }); kc != nil {
 				// a copy in between (append([]byte{}, key...), string conversion, KeyCopy) is fine
 				copied := false
